@@ -3,6 +3,7 @@ package props
 import (
 	"fmt"
 	restful "github.com/emicklei/go-restful/v3"
+	"net/url"
 	"regexp"
 	"sort"
 	"strings"
@@ -217,6 +218,11 @@ func c03Probes(sc *c03Scen) []Probe {
 					add(Probe{Method: "POST", Path: path})
 					add(Probe{Method: "PUT", Path: path})
 					add(Probe{Method: "GET", Path: path + "/"})
+					// the same URL spelled with a percent-escape a client is free to use (a '+' as %2B, or the first
+					// letter of a segment as %61/%62): URL.Path is the same, URL.RawPath is set
+					if esc := c03Escaped(path); esc != path {
+						add(Probe{Method: "GET", Path: esc})
+					}
 				}
 			}
 		}
@@ -240,7 +246,24 @@ func c03SegMatch(tseg, useg string) bool {
 	return tseg == useg
 }
 
+// c03Escaped spells one character of the path as a percent-escape.
+func c03Escaped(path string) string {
+	if i := strings.Index(path, "+"); i >= 0 {
+		return path[:i] + "%2B" + path[i+1:]
+	}
+	if i := strings.LastIndex(path, "/a"); i >= 0 {
+		return path[:i] + "/%61" + path[i+2:]
+	}
+	if i := strings.LastIndex(path, "/b"); i >= 0 {
+		return path[:i] + "/%62" + path[i+2:]
+	}
+	return path
+}
+
 func c03Tokens(p string) []string {
+	if u, err := url.PathUnescape(p); err == nil {
+		p = u
+	}
 	p = strings.Trim(p, "/")
 	if p == "" {
 		return nil
